@@ -415,7 +415,10 @@ int cif_parse(FILE *stream, struct cif_parse_opts_s *options, cif_tp **cifp) {
                 DEFAULT_FAIL(early);
             } else if (encoding_name != NULL) {
                 /* a Unicode encoding signature is successfully detected */
-                /* nothing to do here */
+                if ((options->prefer_cif2 < 20) && (options->prefer_cif2 > 0)) {
+                    /* parse as CIF 2.0 unless a magic code for another version is found in the decoded text */
+                    cif_version = -2;
+                }
             } else if (options->prefer_cif2 > 19) {
                 /*
                  * The encoding was not confidently identified or explicitly named, but the user insists on parsing as
